@@ -1,5 +1,7 @@
 import C2paModel.Model.C33
 import C2paModel.Props.C04
+import C2paModel.Lemmas.C33State
+import C2paModel.Lemmas.C33Url
 /-
 C33 — property theorems. The statement (properties.jsonl):
 
@@ -8,7 +10,12 @@ C33 — property theorems. The statement (properties.jsonl):
   cawg failure code. CAWG failures never make the C2PA manifest itself Invalid.
 
 All theorems quantify over every identity assertion record (any references, pads, signature
-facts), every claim assertion list and every log `rest` of the C2PA checks.
+facts), every claim assertion list, every validation-results value the reader already holds
+(`base`: any active manifest codes, any ingredient deltas) and every place the assertion can sit
+(`uri = none`: active manifest; `some u`: the manifest of ingredient `u`).
+
+Helper lemmas: Lemmas/C33State.lean (C04's `addStatus`/`state` under harmless statuses),
+Lemmas/C33Url.lean (`stripAbs_prefix`, `urlMatches_ignores_manifest_label`).
 -/
 namespace C2pa.C33
 
@@ -202,12 +209,82 @@ theorem pad_change_reported (ia : Identity) (claim : List HUri)
   obtain ⟨t, ht⟩ := validate_log_prefix ia claim
   rw [ht]; exact List.mem_append_left _ (List.mem_append_left _ hp)
 
-/-- **Signature / payload changes are reported** for `cawg.x509.cose`: when the COSE signature
-does not verify over the payload, a `cawg.*` failure is logged — `cawg.x509.signature.mismatch`,
-or the reference mismatch that stopped the validation earlier. -/
-theorem signature_change_reported (ia : Identity) (claim : List HUri)
-    (ht : ia.sigType = .x509) (hs : ia.sig.outcome = .mismatch) :
-    ∃ e ∈ (validate ia claim).2, IsCawgFailure e := by
+/-! ### the remap table -/
+
+def kindOf (s : String) : Kind :=
+  if s == "failure" then .failure else if s == "success" then .success else .informational
+
+/-- **`remap_total`**: every failure code the shared COSE verification can log inside the remap
+guard (table regenerated from the sources on every run) is rewritten to a `cawg.x509.*` code —
+none is passed through. A new failure code in `crypto::cose` without an arm in
+`remap_x509_cose_status_codes` makes this fail. -/
+theorem remap_total :
+    ∀ g ∈ Gen.coseEmitted, kindOf g.2.1 = .failure →
+      C04.cawgX509Prefix.isPrefixOf (remap g.1.toList) = true := by decide
+
+/-- the generated kinds are the three known ones (so `kindOf` loses nothing) -/
+theorem coseEmitted_kinds :
+    ∀ g ∈ Gen.coseEmitted, g.2.1 = "failure" ∨ g.2.1 = "success" ∨ g.2.1 = "informational" := by
+  decide
+
+/-- The remap is a pass-through for every unlisted code (`_ => continue`): such a failure would
+keep its C2PA code — and (next theorem) make the manifest Invalid. -/
+theorem remap_unlisted (c : Code) (h : ∀ p ∈ remapTable, p.1 ≠ c) : remap c = c := by
+  unfold remap
+  have : remapTable.find? (fun p => p.1 == c) = none := by
+    rw [List.find?_eq_none]; intro p hp; simpa using h p hp
+  rw [this]
+
+/-- witness of the pass-through: a time-stamp failure code is not in the table -/
+example : remap "timeStamp.mismatch".toList = "timeStamp.mismatch".toList ∧
+    C04.tolerated (remap "timeStamp.mismatch".toList) = false := by decide
+
+theorem remap_sigMismatch : remap cSigMismatch = cSigMismatch := by decide
+theorem remap_claimSigMismatch : remap cClaimSigMismatch = cSigMismatch := by decide
+theorem sigMismatch_x509 : C04.cawgX509Prefix.isPrefixOf cSigMismatch = true := by decide
+
+/-- The statuses a COSE verification logged are among those the source can log. -/
+def RawFromCose (raw : List Entry) : Prop :=
+  ∀ e ∈ raw, ∃ g ∈ Gen.coseEmitted, g.1.toList = e.1 ∧ kindOf g.2.1 = e.2
+
+theorem remapLog_failures_x509 (raw : List Entry) (h : RawFromCose raw) :
+    ∀ e ∈ remapLog raw, e.2 = .failure → C04.cawgX509Prefix.isPrefixOf e.1 = true := by
+  intro e he hk
+  unfold remapLog at he
+  obtain ⟨e0, he0, rfl⟩ := List.mem_map.1 he
+  obtain ⟨g, hg, hc, hkind⟩ := h e0 he0
+  have := remap_total g hg (by rw [hkind]; exact hk)
+  rw [hc] at this
+  exact this
+
+/-- non-vacuity: the two trust outcomes and a profile failure are `RawFromCose` -/
+example : RawFromCose [failE "signingCredential.untrusted".toList,
+    succ "signingCredential.trusted".toList, failE "signingCredential.invalid".toList] := by
+  intro e he
+  simp only [List.mem_cons, List.mem_nil_iff, or_false] at he
+  rcases he with rfl | rfl | rfl
+  · exact ⟨("signingCredential.untrusted", "failure", "crypto/cose/verifier.rs", 1), by decide, by decide, by decide⟩
+  · exact ⟨("signingCredential.trusted", "success", "crypto/cose/verifier.rs", 1), by decide, by decide, by decide⟩
+  · exact ⟨("signingCredential.invalid", "failure", "crypto/cose/verifier.rs", 1), by decide, by decide, by decide⟩
+
+/-! ### any change to the identity signature is reported -/
+
+/-- The statement's "any change to … the identity signature … is reported with a cawg failure
+code", for `cawg.x509.cose`: whenever the COSE part does not end in "verified" — the structure
+does not parse, the signature does not verify over the payload, or verification fails for any
+other reason — a `cawg.*` failure is logged. No oracle fact about *what* the verifier logged is
+assumed (`ia.sig.raw` is arbitrary, possibly empty). -/
+def SigChangeReported : Prop :=
+  ∀ (ia : Identity) (claim : List HUri), ia.sigType = .x509 → ia.sig.outcome ≠ .verified →
+    ∃ e ∈ (validate ia claim).2, IsCawgFailure e
+
+/-- **`signature_change_reported`**. Holds for the repaired code
+(fixes/C33-report-unverifiable-identity-signature.patch). Before the repair the "any other
+error" arm of `validate_partial_claim` logged nothing: with `outcome = .otherError` and
+`raw = []` (a COSE structure whose certificate chain was removed) the log was empty and the
+assertion was skipped silently — replayed by the harness (mutation `SigNoCerts`). -/
+theorem signature_change_reported : SigChangeReported := by
+  intro ia claim ht hs
   cases hc : checkAgainstClaim ia.refs claim with
   | mk ok l =>
     cases ok
@@ -219,7 +296,35 @@ theorem signature_change_reported (ia : Identity) (claim : List HUri)
         (Or.inl (stop_means_unbound claim ia.refs [] hstop))
       exact ⟨e, validate_keeps_claim_failures ia claim e he, hcf⟩
     · refine ⟨failE cSigMismatch, ?_, failE_cawg _ sigmismatch_is_cawg⟩
-      simp [validate, hc, ht, hs]
+      have hin : failE cSigMismatch ∈ remapLog (guardScopeLog ia.sig) := by
+        unfold remapLog guardScopeLog
+        cases ho : ia.sig.outcome with
+        | verified => exact absurd ho hs
+        | mismatch =>
+          simp only [List.map_append, List.map_cons, List.map_nil]
+          apply List.mem_append_right
+          simp [failE, remap_sigMismatch]
+        | otherError =>
+          simp only [List.map_append, List.map_cons, List.map_nil]
+          apply List.mem_append_right
+          simp [failE, remap_sigMismatch]
+        | parseError =>
+          simp [failE, remap_claimSigMismatch]
+      unfold validate
+      rw [hc]
+      simp only [ht]
+      cases ho : ia.sig.outcome with
+      | verified => exact absurd ho hs
+      | mismatch => exact List.mem_append_right _ hin
+      | otherError => exact List.mem_append_right _ hin
+      | parseError => exact List.mem_append_right _ hin
+
+/-- non-vacuity / the former silent case: no certificate chain, nothing logged by the verifier -/
+example : (validate
+    { refs := [⟨"self#jumbf=c2pa.assertions/c2pa.hash.data".toList, [1]⟩], sigType := .x509,
+      pad1 := [], pad2 := none, sig := ⟨[], .otherError⟩ }
+    [⟨"self#jumbf=c2pa.assertions/c2pa.hash.data".toList, [1]⟩]).2 = [failE cSigMismatch] := by
+  decide
 
 /-! ### an unmodified assertion validates -/
 
@@ -246,7 +351,7 @@ theorem unmodified_assertion_validates (ia : Identity) (claim : List HUri)
     (hd : (ia.refs.map (·.url)).Nodup) (hp1 : ∀ b ∈ ia.pad1, b = 0)
     (hp2 : ∀ p, ia.pad2 = some p → ∀ b ∈ p, b = 0)
     (ht : ia.sigType = .x509) (hs : ia.sig.outcome = .verified) :
-    validate ia claim = (true, ia.sig.entries ++ [succ cSigValidated, succ cWellFormed]) := by
+    validate ia claim = (true, remapLog ia.sig.raw ++ [succ cSigValidated, succ cWellFormed]) := by
   have hpad : padLog ia.pad1 ia.pad2 = [] := by
     unfold padLog
     have h1 : ia.pad1.all (· == 0) = true := List.all_eq_true.2 (fun b hb' => by simp [hp1 b hb'])
@@ -263,7 +368,36 @@ theorem unmodified_assertion_validates (ia : Identity) (claim : List HUri)
     unfold checkAgainstClaim
     rw [checkRefs_all_bound claim ia.refs [] hb]
     simp [hany, dupLog_nodup _ [] hd (by intro u _ h; cases h)]
-  simp [validate, hca, hpad, ht, hs]
+  simp [validate, hca, hpad, ht, hs, guardScopeLog]
+
+/-- Non-vacuity of `unmodified_assertion_validates`: the hypotheses are jointly satisfiable — here
+with the claim listing the assertions by *absolute* URL and the references written relative, a
+trusted credential (C2PA code `signingCredential.trusted`, remapped), zero pads. -/
+example : validate
+    { refs := [⟨"self#jumbf=c2pa.assertions/c2pa.hash.data".toList, [1, 2]⟩,
+               ⟨"self#jumbf=c2pa.assertions/c2pa.actions.v2".toList, [3]⟩],
+      sigType := .x509, pad1 := [0, 0, 0], pad2 := some [0],
+      sig := ⟨[succ "signingCredential.trusted".toList], .verified⟩ }
+    [⟨"self#jumbf=/c2pa/urn:c2pa:77/c2pa.assertions/c2pa.actions.v2".toList, [3]⟩,
+     ⟨"self#jumbf=/c2pa/urn:c2pa:77/c2pa.assertions/c2pa.hash.data".toList, [1, 2]⟩]
+    = (true, [succ "cawg.x509.credential.trusted".toList, succ cSigValidated, succ cWellFormed]) := by
+  have h := unmodified_assertion_validates
+    { refs := [⟨"self#jumbf=c2pa.assertions/c2pa.hash.data".toList, [1, 2]⟩,
+               ⟨"self#jumbf=c2pa.assertions/c2pa.actions.v2".toList, [3]⟩],
+      sigType := .x509, pad1 := [0, 0, 0], pad2 := some [0],
+      sig := ⟨[succ "signingCredential.trusted".toList], .verified⟩ }
+    [⟨"self#jumbf=/c2pa/urn:c2pa:77/c2pa.assertions/c2pa.actions.v2".toList, [3]⟩,
+     ⟨"self#jumbf=/c2pa/urn:c2pa:77/c2pa.assertions/c2pa.hash.data".toList, [1, 2]⟩]
+    (by
+      intro r hr
+      simp only [List.mem_cons, List.mem_nil_iff, or_false] at hr
+      rcases hr with rfl | rfl
+      · exact ⟨⟨"self#jumbf=/c2pa/urn:c2pa:77/c2pa.assertions/c2pa.hash.data".toList, [1, 2]⟩,
+          by decide, rfl⟩
+      · exact ⟨⟨"self#jumbf=/c2pa/urn:c2pa:77/c2pa.assertions/c2pa.actions.v2".toList, [3]⟩,
+          by decide, rfl⟩)
+    ⟨_, List.mem_cons_self .., by decide⟩ (by decide) (by decide) (by decide) rfl rfl
+  rw [h]; decide
 
 /-! ### CAWG failures and the manifest state -/
 
@@ -304,49 +438,158 @@ theorem cawg_failure_never_invalid_false : ¬ CawgFailureNeverInvalid := by
     (by decide)
   exact this (by decide)
 
-/-- **`cawg_failure_never_invalid_partial`**: what the code does guarantee — if every failure the
-identity validation logs is a `cawg.x509.*` one (signature mismatch, untrusted / invalid
-credential, …), a manifest that is not Invalid without them is not Invalid with them. -/
+/-- The statement's last sentence with the position made explicit: the identity assertion may
+sit in the active manifest or in the manifest of any ingredient, on top of any results. -/
+def CawgFailureNeverInvalidAt : Prop :=
+  ∀ (ia : Identity) (claim : List HUri) (base : C04.Results) (uri : Option (List Char)),
+    C04.state base ≠ .invalid → manifestStateAt ia claim base uri ≠ .invalid
+
+/-- `manifestState` (identity assertion of the active manifest, `Manifest::from_store`) is the
+`none` instance of `manifestStateAt`. -/
+theorem foldl_addStatus_active (log : List Entry) :
+    ∀ c : C04.Codes,
+      (log.map (toStatus none)).foldl C04.addStatus { active := some c, deltas := none }
+        = { active := some (log.foldl
+              (fun c e => c.add { code := e.1, kind := e.2, uri := none }) c), deltas := none } := by
+  induction log with
+  | nil => intro c; rfl
+  | cons e es ih =>
+    intro c
+    simp only [List.map_cons, List.foldl_cons]
+    have : C04.addStatus { active := some c, deltas := none } (toStatus none e)
+        = { active := some (c.add { code := e.1, kind := e.2, uri := none }), deltas := none } := by
+      simp [C04.addStatus, toStatus]
+    rw [this]; exact ih _
+
+theorem manifestState_eq_at (ia : Identity) (claim : List HUri) (rest : List Entry) :
+    manifestState ia claim rest
+      = manifestStateAt ia claim { active := some (toCodes rest), deltas := none } none := by
+  unfold manifestState manifestStateAt manifestResultsAt postValidate
+  rw [foldl_addStatus_active]
+  simp [toCodes, List.foldl_append]
+
+/-- **`cawg_x509_failures_never_invalid`** — what the code guarantees, at full generality of
+position: if every failure the identity validation logs has a `cawg.x509.*` code, results that
+are not Invalid without them are not Invalid with them — whether the assertion sits in the
+active manifest (`uri = none`) or in the manifest of an ingredient (`uri = some u`: the failures
+land in that ingredient's delta, existing or new), and whatever the other deltas hold. -/
+theorem cawg_x509_failures_never_invalid (log : List Entry) (base : C04.Results)
+    (uri : Option (List Char))
+    (hx : ∀ e ∈ log, e.2 = .failure → C04.cawgX509Prefix.isPrefixOf e.1 = true)
+    (hv : C04.state base ≠ .invalid) :
+    C04.state (postValidate base uri log) ≠ .invalid := by
+  unfold postValidate
+  apply harmless_never_invalid _ _ base hv
+  intro s hs hk
+  obtain ⟨e, he, rfl⟩ := List.mem_map.1 hs
+  have := hx e he hk
+  simp [toStatus, C04.tolerated, this]
+
+/-- Several identity assertions, in any mix of manifests (active / different ingredients), one
+after the other: still never Invalid. -/
+theorem cawg_x509_failures_never_invalid_many (logs : List (Option (List Char) × List Entry))
+    (hx : ∀ p ∈ logs, ∀ e ∈ p.2, e.2 = .failure → C04.cawgX509Prefix.isPrefixOf e.1 = true) :
+    ∀ base : C04.Results, C04.state base ≠ .invalid →
+      C04.state (logs.foldl (fun r p => postValidate r p.1 p.2) base) ≠ .invalid := by
+  induction logs with
+  | nil => intro base h; exact h
+  | cons p ps ih =>
+    intro base h
+    simp only [List.foldl_cons]
+    exact ih (fun q hq => hx q (List.mem_cons_of_mem _ hq)) _
+      (cawg_x509_failures_never_invalid p.2 base p.1 (hx p (List.mem_cons_self ..)) h)
+
+/-- When the pads are zero and the references intact, every failure `validate_partial_claim`
+can log for `cawg.x509.cose` is a `cawg.x509.*` one — from input-level facts only: the
+verifier's raw statuses are among those the `crypto::cose` sources can log (`RawFromCose`,
+generated table), rewritten by the modelled remap (`remap_total`). -/
+theorem intact_refs_failures_x509 (ia : Identity) (claim : List HUri)
+    (hb : ∀ r ∈ ia.refs, RefBound claim r) (hh : ∃ r ∈ ia.refs, isHardBindingRef r.url = true)
+    (hd : (ia.refs.map (·.url)).Nodup) (hp1 : ∀ b ∈ ia.pad1, b = 0)
+    (hp2 : ∀ p, ia.pad2 = some p → ∀ b ∈ p, b = 0)
+    (ht : ia.sigType = .x509) (hraw : RawFromCose ia.sig.raw) :
+    ∀ e ∈ (validate ia claim).2, e.2 = .failure → C04.cawgX509Prefix.isPrefixOf e.1 = true := by
+  have hpad : padLog ia.pad1 ia.pad2 = [] := by
+    unfold padLog
+    have h1 : ia.pad1.all (· == 0) = true := List.all_eq_true.2 (fun b hb' => by simp [hp1 b hb'])
+    simp only [h1, Bool.not_true, Bool.false_eq_true, if_false]
+    cases h2 : ia.pad2 with
+    | none => rfl
+    | some p =>
+      have : p.all (· == 0) = true := List.all_eq_true.2 (fun b hb' => by simp [hp2 p h2 b hb'])
+      simp [this]
+  have hany : (ia.refs.any fun r => isHardBindingRef r.url) = true := by
+    obtain ⟨r, hr, hrb⟩ := hh
+    exact List.any_eq_true.2 ⟨r, hr, hrb⟩
+  have hca : checkAgainstClaim ia.refs claim = (true, []) := by
+    unfold checkAgainstClaim
+    rw [checkRefs_all_bound claim ia.refs [] hb]
+    simp [hany, dupLog_nodup _ [] hd (by intro u _ h; cases h)]
+  have hraw' := remapLog_failures_x509 ia.sig.raw hraw
+  have hmis : ∀ e ∈ remapLog [failE cSigMismatch], e.2 = .failure →
+      C04.cawgX509Prefix.isPrefixOf e.1 = true := by
+    intro e he _
+    have : e = failE cSigMismatch := by simpa [remapLog, failE, remap_sigMismatch] using he
+    rw [this]; exact sigMismatch_x509
+  have hcl : ∀ e ∈ remapLog [failE cClaimSigMismatch], e.2 = .failure →
+      C04.cawgX509Prefix.isPrefixOf e.1 = true := by
+    intro e he _
+    have : e = failE cSigMismatch := by simpa [remapLog, failE, remap_claimSigMismatch] using he
+    rw [this]; exact sigMismatch_x509
+  have hsplit : ∀ a b : List Entry, remapLog (a ++ b) = remapLog a ++ remapLog b := by
+    intro a b; simp [remapLog]
+  intro e he hk
+  unfold validate at he
+  rw [hca] at he
+  simp only [hpad, ht, List.nil_append, List.append_nil] at he
+  cases ho : ia.sig.outcome with
+  | verified =>
+    simp only [ho, guardScopeLog] at he
+    rcases List.mem_append.1 he with h | h
+    · exact hraw' e h hk
+    · simp [succ] at h
+      rcases h with rfl | rfl <;> cases hk
+  | mismatch =>
+    simp only [ho, guardScopeLog, hsplit] at he
+    rcases List.mem_append.1 he with h | h
+    · exact hraw' e h hk
+    · exact hmis e h hk
+  | otherError =>
+    simp only [ho, guardScopeLog, hsplit] at he
+    rcases List.mem_append.1 he with h | h
+    · exact hraw' e h hk
+    · exact hmis e h hk
+  | parseError =>
+    simp only [ho, guardScopeLog] at he
+    exact hcl e he hk
+
+/-- **`cawg_signature_failures_never_invalid`** — the statement's last sentence for everything
+that can go wrong with the *signature and credential* of an identity assertion whose pads and
+references are intact: whatever the outcome (does not parse, does not verify, any other error,
+untrusted / invalid / expired credential — any statuses the COSE sources can log), in the active
+manifest or in any ingredient's manifest, results that are not Invalid stay not Invalid. -/
+theorem cawg_signature_failures_never_invalid (ia : Identity) (claim : List HUri)
+    (base : C04.Results) (uri : Option (List Char))
+    (hb : ∀ r ∈ ia.refs, RefBound claim r) (hh : ∃ r ∈ ia.refs, isHardBindingRef r.url = true)
+    (hd : (ia.refs.map (·.url)).Nodup) (hp1 : ∀ b ∈ ia.pad1, b = 0)
+    (hp2 : ∀ p, ia.pad2 = some p → ∀ b ∈ p, b = 0)
+    (ht : ia.sigType = .x509) (hraw : RawFromCose ia.sig.raw)
+    (hv : C04.state base ≠ .invalid) :
+    manifestStateAt ia claim base uri ≠ .invalid := by
+  unfold manifestStateAt manifestResultsAt
+  exact cawg_x509_failures_never_invalid _ base uri
+    (intact_refs_failures_x509 ia claim hb hh hd hp1 hp2 ht hraw) hv
+
+/-- **`cawg_failure_never_invalid_partial`** (active manifest, `Manifest::from_store` form): if
+every failure the identity validation logs is a `cawg.x509.*` one, a manifest that is not
+Invalid without them is not Invalid with them. -/
 theorem cawg_failure_never_invalid_partial (ia : Identity) (claim : List HUri) (rest : List Entry)
     (hx : ∀ e ∈ (validate ia claim).2, e.2 = .failure → C04.cawgX509Prefix.isPrefixOf e.1 = true)
     (hv : C04.state { active := some (toCodes rest), deltas := none } ≠ .invalid) :
     manifestState ia claim rest ≠ .invalid := by
-  -- generalised over the appended log
-  have key : ∀ (extra : List Entry) (base : List Entry),
-      (∀ e ∈ extra, e.2 = .failure → C04.cawgX509Prefix.isPrefixOf e.1 = true) →
-      C04.state { active := some (toCodes base), deltas := none } ≠ .invalid →
-      C04.state { active := some (toCodes (base ++ extra)), deltas := none } ≠ .invalid := by
-    intro extra
-    induction extra with
-    | nil => intro base _ h; simpa using h
-    | cons e es ih =>
-      intro base hx hb
-      have hstep : C04.state { active := some (toCodes (base ++ [e])), deltas := none } ≠ .invalid := by
-        have hcodes : toCodes (base ++ [e]) = (toCodes base).add { code := e.1, kind := e.2, uri := none } := by
-          simp [toCodes, List.foldl_append]
-        rw [hcodes]
-        rw [C04.state_not_invalid_iff] at hb ⊢
-        obtain ⟨a, ha, h1, h2, h3, h4⟩ := hb
-        simp only [Option.some.injEq] at ha
-        subst ha
-        refine ⟨_, rfl, ?_, ?_, ?_, ?_⟩
-        · unfold C04.Codes.add; cases e.2 <;> simp [h1]
-        · unfold C04.Codes.add; cases e.2 <;> simp [h2]
-        · intro f hf
-          unfold C04.Codes.add at hf
-          cases hk : e.2 <;> rw [hk] at hf <;> simp at hf
-          · exact h3 f hf
-          · exact h3 f hf
-          · rcases hf with hf | hf
-            · exact h3 f hf
-            · subst hf
-              have := hx e (List.mem_cons_self ..) hk
-              simp [C04.tolerated, this]
-        · intro d hd; simp [C04.deltasOf] at hd
-      have := ih (base ++ [e]) (fun x hxm => hx x (List.mem_cons_of_mem _ hxm)) hstep
-      simpa using this
-  unfold manifestState
-  exact key _ rest hx hv
+  rw [manifestState_eq_at]
+  unfold manifestStateAt manifestResultsAt
+  exact cawg_x509_failures_never_invalid _ _ none hx hv
 
 /-- Non-vacuity: a signature mismatch (a `cawg.x509.*` failure) leaves a Valid manifest Valid. -/
 example : manifestState
@@ -354,6 +597,57 @@ example : manifestState
       pad1 := [], pad2 := none, sig := ⟨[], .mismatch⟩ }
     [⟨"self#jumbf=c2pa.assertions/c2pa.hash.data".toList, [1]⟩]
     [succ C04.cSigValidated, succ C04.cInsideValidity] = .valid := by decide
+
+/-- Non-vacuity for the ingredient position: an untrusted CAWG credential inside the manifest of
+ingredient `u`, whose delta already records `signingCredential.untrusted`, leaves Valid Valid. -/
+example : manifestStateAt
+    { refs := [⟨"self#jumbf=c2pa.assertions/c2pa.hash.data".toList, [1]⟩], sigType := .x509,
+      pad1 := [], pad2 := none,
+      sig := ⟨[failE "signingCredential.untrusted".toList], .verified⟩ }
+    [⟨"self#jumbf=c2pa.assertions/c2pa.hash.data".toList, [1]⟩]
+    { active := some { success := [C04.cSigValidated, C04.cInsideValidity] },
+      deltas := some [{ uri := "u".toList, codes := { failure := [C04.cUntrusted] } }] }
+    (some "u".toList) = .valid := by decide
+
+/-- **The other direction (F13 in general)**: any `cawg.identity.*` failure — pad, reference
+mismatch, duplicate, missing hard binding; in fact any logged failure whose code is not
+`cawg.x509.*` / `signingCredential.untrusted` — makes the results Invalid, in the active manifest
+and in any ingredient's manifest alike. -/
+theorem nontolerated_identity_failure_invalid (ia : Identity) (claim : List HUri)
+    (base : C04.Results) (uri : Option (List Char)) (e : Entry)
+    (he : e ∈ (validate ia claim).2) (hk : e.2 = .failure) (ht : C04.tolerated e.1 = false) :
+    manifestStateAt ia claim base uri = .invalid := by
+  unfold manifestStateAt manifestResultsAt postValidate
+  exact nontolerated_in_sequence_invalid _ (toStatus uri e)
+    (List.mem_map.2 ⟨e, he, rfl⟩) hk ht base
+
+theorem pad_not_tolerated : C04.tolerated cPad = false := by decide
+theorem mismatch_not_tolerated : C04.tolerated cMismatch = false := by decide
+theorem duplicate_not_tolerated : C04.tolerated cDuplicate = false := by decide
+theorem hardbinding_not_tolerated : C04.tolerated cHardBinding = false := by decide
+
+/-- … so a changed pad byte makes the manifest Invalid wherever the assertion sits. -/
+theorem pad_change_invalidates (ia : Identity) (claim : List HUri) (base : C04.Results)
+    (uri : Option (List Char))
+    (h : (∃ b ∈ ia.pad1, b ≠ 0) ∨ ((∀ b ∈ ia.pad1, b = 0) ∧ ∃ p, ia.pad2 = some p ∧ ∃ b ∈ p, b ≠ 0)) :
+    manifestStateAt ia claim base uri = .invalid :=
+  nontolerated_identity_failure_invalid ia claim base uri (failE cPad)
+    (pad_change_reported ia claim h) rfl pad_not_tolerated
+
+/-- **False for the code as it is, at every position** (F13): a non-zero pad byte in an identity
+assertion inside an *ingredient's* manifest makes an otherwise Trusted store Invalid.
+(Replayed by the harness: `e2ei`, position `componentOf`, mutation `Pad1`.) -/
+theorem cawg_failure_never_invalid_at_false : ¬ CawgFailureNeverInvalidAt := by
+  intro h
+  have hne := h
+    { refs := [⟨"self#jumbf=c2pa.assertions/c2pa.hash.data".toList, [1]⟩], sigType := .x509,
+      pad1 := [0, 7], pad2 := none, sig := ⟨[], .verified⟩ }
+    [⟨"self#jumbf=c2pa.assertions/c2pa.hash.data".toList, [1]⟩]
+    { active := some { success := [C04.cTrusted, C04.cSigValidated, C04.cInsideValidity] },
+      deltas := none }
+    (some "self#jumbf=/c2pa/urn:c2pa:outer/c2pa.assertions/c2pa.ingredient.v3".toList)
+    (by decide)
+  exact hne (pad_change_invalidates _ _ _ _ (Or.inl ⟨7, by decide, by decide⟩))
 
 /-! ### the `sig_type` gap -/
 
